@@ -143,6 +143,45 @@ def loader_text(c, facts, R):
             else:
                 c.ok(R, {fn.qname: 'returns the loaded text unchanged'})
     c.floor(R, 'Loader::load implementations', n, 3)
+    # ... and so does what the loaders read from: the file system, the workspace copy, and didOpen storing the text
+    m = 0
+    for fn in sorted(facts.fns.values(), key=lambda f: f.qname):
+        q = fn.qname
+        is_fs = (fn.d.get('impl_trait') or '').endswith('FileSystem') and fn.d.get('assoc_name') == 'read_file'
+        is_ws = q == 'oal_client::lsp::Workspace::read_file'
+        if not fn.mir or not (is_fs or is_ws):
+            continue
+        m += 1
+        idx = MF.defs_index(fn)
+        sl = MF.slice_back(fn, 0, idx)
+        names = {P.strip(x).split('::')[-1] for x, _, _ in sl['calls']}
+        bad = sorted(names - TRANSFORMS_OK - {'from_residual', 'locator_path', 'entry', 'get', 'insert', 'url', 'as_str', 'eq', 'ne', 'new', 'to_file_path', 'map_err', 'scheme'})
+        who = (fn.d.get('impl_self') or q).split('::')[-1].split('<')[0] if is_fs else 'Workspace'
+        if bad:
+            c.bad(R, '%s::read_file:text-transformed:%s' % (who, ','.join(bad)), '%s::read_file transforms the text it reads (%s): spans and client positions no longer index the text the user sees' % (who, ', '.join(bad)))
+        else:
+            c.ok(R, {q: 'returns the text unchanged'})
+    c.floor(R, 'read_file implementations', m, 2)
+    op = facts.fn('oal_client::lsp::Workspace::open')
+    if op is None or not op.mir:
+        c.bad(R, 'anchor-missing:Workspace::open', 'Workspace::open not found')
+    else:
+        idx = MF.defs_index(op)
+        stored = False
+        for b, t in op.calls():
+            info = callee_of(t)
+            if info and P.strip(info['def']).split('::')[-1] == 'insert' and len(t['args']) > 2 and 'l' in t['args'][2]:
+                a = t['args'][2]
+                direct = [x for x in MF.field_path(a)] if a.get('proj') else None
+                sl = MF.slice_back(op, a['l'], idx)
+                names = {P.strip(x).split('::')[-1] for x, _, _ in sl['calls']} - TRANSFORMS_OK
+                stored = True
+                if names:
+                    c.bad(R, 'Workspace::open:text-transformed:%s' % ','.join(sorted(names)), 'Workspace::open stores a transformed copy of the text the client sent (%s): every later position of the client is applied to a different text' % ', '.join(sorted(names)))
+                else:
+                    c.ok(R, {'Workspace::open': 'stores the text of didOpen as it is'})
+        if not stored:
+            c.bad(R, 'Workspace::open:shape', 'Workspace::open no longer stores the text of the opened document')
 
 
 def pat_binds(p):
@@ -478,7 +517,51 @@ def r9_lex_total(c, facts):
         c.bad(R, 'tokenize:loop-left-early', 'tokenize can leave its loop before the lexer is exhausted (exit at line %s): the rest of the text is neither tokenized nor reported, and the parser accepts the prefix silently' % lines)
 
 
+SPAN_MAKERS = {
+    'oal_syntax::lexer::tokenize': 'the range the lexer reports for the token / the error',
+    'oal_model::lexicon::TokenList::token_span': 'the stored range of a token',
+    'oal_model::lexicon::TokenRef::span': 'the stored range of a token',
+    'oal_model::grammar::Context::span': 'a token span, or end..end+1 at the end of input (R4)',
+    'oal_model::grammar::NodeRef::span': 'the hull of the first and last token of the node (R3)',
+}
+
+
+def r10_span_provenance(c, facts, rule='C11.R10'):
+    """A span is a range *of tokens*: only the lexer, the token list and the hull computation build one from offsets.
+    Everywhere else a span is taken from a node or token as it is, or is the constant empty span used when an error
+    has no location - never the result of arithmetic on offsets (an offset into an annotation's YAML text is not an
+    offset into the source)."""
+    R = c.rule(rule, 'SPAN-PROVENANCE: outside the lexer, the token list and the hull computation no span is computed from offsets')
+    n = 0
+    for fn in sorted(facts.fns.values(), key=lambda f: f.qname):
+        if not fn.mir:
+            continue
+        sites = P.call_blocks(fn, 'span::Span::new')
+        if not sites:
+            continue
+        base = fn.qname.split('::{closure')[0]
+        maker = next((k for k in SPAN_MAKERS if P.name_is(base, k.split('::', 1)[1]) or base == k), None)
+        if maker is None and facts.reached_only_through(fn, set(SPAN_MAKERS)):
+            maker = 'helper of a span maker'
+        idx = MF.defs_index(fn)
+        for b, t in sites:
+            n += 1
+            if maker:
+                c.ok(R, {'fn': fn.qname, 'role': SPAN_MAKERS.get(maker, maker)})
+                continue
+            a = t['args'][1] if len(t['args']) > 1 else None
+            sl = MF.slice_back(fn, a['l'], idx) if a and 'l' in a else {'calls': [], 'args': set(), 'consts': [a] if a else [], 'locals': set()}
+            computed = sorted({P.strip(x).split('::')[-1] for x, _, _ in sl['calls']})
+            arith = any(st['s'] == 'assign' and st['place']['l'] in sl['locals'] and st['rv']['r'] in ('binop', 'checked_binop') for _, blk in fn.blocks() for st in blk['stmts'])
+            if computed or arith or sl['args']:
+                c.bad(R, 'span-computed-outside-lexer:%s' % base.split('::')[-1], '%s builds a span from computed offsets (%s): the offsets are not token boundaries of the source text, the span can be inverted or lie outside the module' % (fn.qname, computed or 'arithmetic'))
+            else:
+                c.ok(R, {'fn': fn.qname, 'role': 'the constant empty span of an error without location'})
+    c.floor(R, 'Span::new call sites', n, 12)
+
+
 def run(c, facts):
+    c.run(r10_span_provenance, facts)
     import c16
     c.run(r8_diag_span, facts)
     c.run(r9_lex_total, facts)
